@@ -46,6 +46,19 @@ def arm_name(f, r):
     return '%s return' % (k or 'unknown')
 
 
+def payload_edits(f, r, data):
+    """Content-dependent bytes methods applied to views of the buffer in
+    what a successful return is built from."""
+    edits = []
+    for t in T.subterms(tuple(r.reachable_terms(f.it))):
+        if t.op == 'method' and isinstance(t.args[1], str) and \
+                t.args[1] in CONTENT_METHODS and \
+                T.mentions(t.args[0], lambda x: x is data):
+            edits.append('%s(...) on %s' % (
+                t.args[1], T.show(t.args[0])[:60]))
+    return edits
+
+
 def run(chk, ctx):
     for r, t in RULES.items():
         chk.rule(r, t)
@@ -67,9 +80,8 @@ def run(chk, ctx):
     for key in keys_for(ctx):
         f = F.UnmarshalFacts(ctx, key)
         data = f.data
-        if f.header is None:
-            raise AnalysisError('no envelope header read found in '
-                                'frame.unmarshal')
+        if not F.header_or_violation(chk, 'C06.N', f):
+            return
         hf = f.header
         size_t, ch_t, ty_t = f.hfield(2), f.hfield(1), f.hfield(0)
         if first:
@@ -171,13 +183,7 @@ def run(chk, ctx):
                    site=site)
             # the frame handed on is the bytes that were sent: no view of
             # the buffer goes through a content-dependent bytes method
-            edits = []
-            for t in T.subterms(tuple(r.reachable_terms(f.it))):
-                if t.op == 'method' and isinstance(t.args[1], str) and \
-                        t.args[1] in CONTENT_METHODS and \
-                        T.mentions(t.args[0], lambda x: x is data):
-                    edits.append('%s(...) on %s' % (
-                        t.args[1], T.show(t.args[0])[:60]))
+            edits = payload_edits(f, r, data)
             chk.ob('C06.P', cons, not edits,
                    'views of the buffer are used as they are' if not edits
                    else 'the result depends on the payload through %s: '
